@@ -3,5 +3,6 @@ NEXT Next
 CONSTANTS
   CpsMode = FALSE
 INVARIANT MachineAgreesWithTable
+INVARIANT BwsSameOutcome
 INVARIANT Export
 CHECK_DEADLOCK FALSE
